@@ -61,6 +61,7 @@ theorem fold_ok (f : String) (hf : compileCalls.contains f = false) :
       exact ih s hb he hw h3
     | note n => exact ih s hb he hw hs
     | lp _ _ => exact absurd hs (by simp [segOk])
+    | il _ _ => exact absurd hs (by simp [segOk])
     | cvp _ _ _ => exact absurd hs (by simp [segOk])
     | sn _ _ => exact absurd hs (by simp [segOk])
     | inc _ _ _ _ => exact absurd hs (by simp [segOk])
@@ -129,6 +130,7 @@ theorem segOk_mono (f : String) : ∀ (evs : List Ev) (apps apps' : List Approva
       exact ⟨a, hsub a ha, hk⟩
     | note n => exact ih _ _ hsub h
     | lp _ _ => exact absurd h (by simp [segOk])
+    | il _ _ => exact absurd h (by simp [segOk])
     | cvp _ _ _ => exact absurd h (by simp [segOk])
     | sn _ _ => exact absurd h (by simp [segOk])
     | inc _ _ _ _ => exact absurd h (by simp [segOk])
@@ -157,6 +159,7 @@ theorem segOk_append (f : String) : ∀ (e1 e2 : List Ev) (apps : List Approval)
       exact ⟨a, b, ih e2 _ c h2⟩
     | note n => exact ih e2 _ h1 h2
     | lp _ _ => exact absurd h1 (by simp [segOk])
+    | il _ _ => exact absurd h1 (by simp [segOk])
     | cvp _ _ _ => exact absurd h1 (by simp [segOk])
     | sn _ _ => exact absurd h1 (by simp [segOk])
     | inc _ _ _ _ => exact absurd h1 (by simp [segOk])
@@ -197,34 +200,99 @@ theorem covers_child (fn : String) (a b : CStr) (hf : fn = "open" ∨ fn = "rena
   have this' : childOf a (a ++ '/' :: b) = true := by simpa using this
   rcases hf with rfl | rfl | rfl <;> simp [covers, this']
 
-theorem segOk_getDirFs (f : String) (ex : List CStr) (P : CStr) (apps : List Approval)
-    (hm : (⟨false, P⟩ : Approval) ∈ apps) (hl : specLegal P = true) (hs : safe P = true) :
-    segOk f apps (getDirFs ex P) := by
-  have k1 : apps.any (okBy "stat" false (listDir P)) = true :=
-    any_okBy _ _ _ _ ⟨false, P⟩ hm hl (covers_listDir _ P (Or.inl rfl)) (by simp)
-  have k2 : apps.any (okBy "opendir" false (listDir P)) = true :=
-    any_okBy _ _ _ _ ⟨false, P⟩ hm hl (covers_listDir _ P (Or.inr rfl)) (by simp)
-  have k3 : apps.any (okBy "opendir" false (parentDir (listDir P))) = true :=
-    any_okBy _ _ _ _ ⟨false, P⟩ hm hl (covers_parent P) (by simp)
-  have s1 := safe_listDir P hs
-  have s2 := safe_parentDir _ s1
-  unfold getDirFs
-  simp only
-  split <;> split <;> simp [segOk, k1, k2, k3, s1, s2]
+theorem covers_entry (a d : CStr) (n : CStr) (hd : d = listDir a ∨ d = parentDir (listDir a))
+    (hb : '/' ∉ n) (hn : n ≠ dotdot) : covers "stat-entry" a (d ++ ['/'] ++ n) = true := by
+  have : childOf d (d ++ ['/'] ++ n) = true := by
+    unfold childOf
+    simp only [List.take_left', List.drop_left', List.length_append, List.length_cons, List.length_nil]
+    simp [hb, hn]
+  have this' : childOf d (d ++ '/' :: n) = true := by simpa using this
+  rcases hd with rfl | rfl <;> simp [covers, this']
 
-theorem segOk_getDir (f : String) (pol : Policy) (ex : List CStr) (a : CStr) (apps : List Approval)
-    (hop : opOk f "stat" = true) : segOk f apps (getDir pol ex a) := by
+theorem segOk_map_fs (f : String) (apps : List Approval) (fn : String) (w : Bool) (ps : List CStr)
+    (h : ∀ p ∈ ps, safe p = true ∧ apps.any (okBy fn w p) = true) :
+    segOk f apps (ps.map (fun p => Ev.fs fn w p)) := by
+  induction ps with
+  | nil => trivial
+  | cons p r ih =>
+    simp only [List.map_cons, segOk]
+    exact ⟨(h p (by simp)).1, (h p (by simp)).2, ih (fun q hq => h q (by simp [hq]))⟩
+
+/-- the per-entry `stat`s of `get_dir (path, -1)`: each is a direct child (not "..") of the listed directory -/
+theorem segOk_entryStats (f : String) (ex : List CStr) (fl : Bool) (P d : CStr) (pat : Option CStr)
+    (apps : List Approval) (hm : (⟨false, P⟩ : Approval) ∈ apps) (hl : specLegal P = true)
+    (hd : d = listDir P ∨ d = parentDir (listDir P)) (hs : safe d = true) (h0 : d ≠ []) :
+    segOk f apps (entryStats ex fl d pat) := by
+  unfold entryStats
+  split
+  · trivial
+  · split
+    · trivial
+    · rw [show (fun n : String => Ev.fs "stat-entry" false (d ++ ['/'] ++ n.toList)) =
+          ((fun p => Ev.fs "stat-entry" false p) ∘ (fun n : String => d ++ ['/'] ++ n.toList)) from rfl,
+        ← List.map_map]
+      apply segOk_map_fs
+      intro p hp
+      simp only [List.mem_map, List.mem_filter] at hp
+      obtain ⟨n, hmem, rfl⟩ := hp
+      have hf := hmem.2
+      rw [Bool.and_eq_true, Bool.and_eq_true, Bool.and_eq_true] at hf
+      obtain ⟨⟨⟨_, h2⟩, h3⟩, _⟩ := hf
+      have h2' : n ≠ ".." := by simpa using h2
+      have h3 : '/' ∉ n.toList := by simpa using h3
+      have hn : n.toList ≠ dotdot := by
+        intro e
+        apply h2'
+        have : n = String.ofList n.toList := by simp
+        rw [this, e]; rfl
+      exact ⟨safe_child d _ h0 hs h3 hn,
+             any_okBy _ _ _ _ ⟨false, P⟩ hm hl (covers_entry P d _ hd h3 hn) (by simp)⟩
+
+theorem segOk_getDirFs (f : String) (ex : List CStr) (P : CStr) (fl : Bool) (apps : List Approval)
+    (hm : (⟨false, P⟩ : Approval) ∈ apps) (hl : specLegal P = true) (hs : safe P = true) (h0 : P ≠ []) :
+    segOk f apps (getDirFs ex P fl) := by
+  unfold getDirFs
+  split
+  · trivial
+  · rename_i hlen
+    have htake : P.take (NV.Gen.C15.getDirTemppathSize - 1) = P := by
+      apply List.take_of_length_le
+      have : NV.Gen.C15.maxPathLen ≤ NV.Gen.C15.getDirTemppathSize - 1 := by decide
+      omega
+    rw [htake]
+    have k1 : apps.any (okBy "stat" false (listDir P)) = true :=
+      any_okBy _ _ _ _ ⟨false, P⟩ hm hl (covers_listDir _ P (Or.inl rfl)) (by simp)
+    have k2 : apps.any (okBy "opendir" false (listDir P)) = true :=
+      any_okBy _ _ _ _ ⟨false, P⟩ hm hl (covers_listDir _ P (Or.inr rfl)) (by simp)
+    have k3 : apps.any (okBy "opendir" false (parentDir (listDir P))) = true :=
+      any_okBy _ _ _ _ ⟨false, P⟩ hm hl (covers_parent P) (by simp)
+    have s1 := safe_listDir P hs
+    have s2 := safe_parentDir _ s1
+    have e1 := segOk_entryStats f ex fl P (listDir P) none apps hm hl (Or.inl rfl) s1 (listDir_ne_nil P hs h0)
+    have e2 := fun pat => segOk_entryStats f ex fl P (parentDir (listDir P)) pat apps hm hl (Or.inr rfl) s2
+      (parentDir_ne_nil _ s1)
+    simp only
+    split <;> split
+    · simp [segOk, k1, s1]
+    · simp only [List.cons_append, List.nil_append, segOk, k1, k3, s1, s2, true_and]
+      exact e2 _
+    · simp [segOk, k1, s1]
+    · simp only [List.cons_append, List.nil_append, segOk, k1, k2, s1, true_and]
+      exact e1
+
+theorem segOk_getDir (f : String) (pol : Policy) (ex : List CStr) (a : CStr) (fl : Bool) (apps : List Approval)
+    (hop : opOk f "stat" = true) : segOk f apps (getDir pol ex a fl) := by
   unfold getDir ask
   simp only
   cases h : checkValidPath true (pol.verdict false a) a with
   | none => simp [segOk, hop]
   | some P =>
-    obtain ⟨h1, h2, h3, _⟩ := approved false _ _ _ h
+    obtain ⟨h1, h2, h3, h4⟩ := approved false _ _ _ h
     simp only [List.singleton_append, segOk, h1, Option.toList_some, hop, true_and]
-    exact segOk_getDirFs f ex P _ (by simp) h2 h3
+    exact segOk_getDirFs f ex P fl _ (by simp) h2 h3 h4
 
-theorem segOk_stat (f : String) (pol : Policy) (ex : List CStr) (a : CStr) (apps : List Approval)
-    (hop : opOk f "stat" = true) : segOk f apps (statEfun pol ex a) := by
+theorem segOk_stat (f : String) (pol : Policy) (ex : List CStr) (a : CStr) (fl : Bool) (apps : List Approval)
+    (hop : opOk f "stat" = true) : segOk f apps (statEfun pol ex a fl) := by
   unfold statEfun ask
   simp only
   cases h : checkValidPath true (pol.verdict false a) a with
@@ -235,7 +303,7 @@ theorem segOk_stat (f : String) (pol : Policy) (ex : List CStr) (a : CStr) (apps
     refine ⟨any_okBy _ _ _ _ ⟨false, P⟩ (by simp) h2 (covers_self _ P) (by simp), ?_⟩
     split
     · trivial
-    · exact segOk_getDir f pol ex a _ hop
+    · exact segOk_getDir f pol ex a fl _ hop
 
 theorem baseName_ne_dotdot (p : CStr) (h : safe p = true) : baseName p ≠ dotdot :=
   ((safe_iff p).mp h).2 _ (baseName_mem_comps p)
@@ -252,6 +320,45 @@ theorem target_ok (fn : String) (to src : CStr) (c : Bool) (hf : fn = "open" ∨
     exact ⟨covers_child fn to _ hf (baseName_noslash src) (baseName_ne_dotdot src hsrc),
            safe_child to _ h0 hs (baseName_noslash src) (baseName_ne_dotdot src hsrc)⟩
 
+theorem covers_renameSrc (fn : String) (from_ : CStr) (hfn : fn = "rename" ∨ fn = "symlink") :
+    covers fn from_ (renameSrc from_) = true := by
+  unfold renameSrc; split
+  · exact covers_strip fn from_ hfn
+  · exact covers_self fn from_
+
+theorem safe_renameSrc (from_ : CStr) (h : safe from_ = true) : safe (renameSrc from_) = true := by
+  unfold renameSrc; split
+  · exact safe_stripTrail from_ h
+  · exact h
+
+theorem segOk_move (f : String) (sym tl : Bool) (from_ to : CStr) (apps : List Approval) (target : CStr)
+    (m1 : (⟨true, from_⟩ : Approval) ∈ apps) (m2 : (⟨true, to⟩ : Approval) ∈ apps)
+    (l1 : specLegal from_ = true) (s1 : safe from_ = true)
+    (l2 : specLegal to = true) (s2 : safe to = true) (n2 : to ≠ [])
+    (ht : target = to ∨ target = to ++ '/' :: baseName (renameSrc from_)) :
+    segOk f apps (moveEvents sym tl (renameSrc from_) target) := by
+  have hs' := safe_renameSrc from_ s1
+  have hT : (covers "rename-to" to target = true ∧ covers "symlink-to" to target = true) ∧ safe target = true := by
+    rcases ht with rfl | rfl
+    · exact ⟨⟨covers_self _ _, covers_self _ _⟩, s2⟩
+    · obtain ⟨tc1, ts⟩ := target_ok "rename-to" to (renameSrc from_) true (Or.inr (Or.inl rfl)) n2 s2 hs'
+      obtain ⟨tc2, _⟩ := target_ok "symlink-to" to (renameSrc from_) true (Or.inr (Or.inr rfl)) n2 s2 hs'
+      simp only [↓reduceIte, List.append_assoc, List.singleton_append] at tc1 tc2 ts
+      exact ⟨⟨tc1, tc2⟩, ts⟩
+  obtain ⟨⟨tc1, tc2⟩, ts⟩ := hT
+  have k1 : apps.any (okBy "rename" true (renameSrc from_)) = true :=
+    any_okBy _ _ _ _ ⟨true, from_⟩ m1 l1 (covers_renameSrc _ _ (Or.inl rfl)) (by simp)
+  have k1' : apps.any (okBy "symlink" true (renameSrc from_)) = true :=
+    any_okBy _ _ _ _ ⟨true, from_⟩ m1 l1 (covers_renameSrc _ _ (Or.inr rfl)) (by simp)
+  have k2 := any_okBy apps "rename-to" true _ ⟨true, to⟩ m2 l2 tc1 (by simp)
+  have k2' := any_okBy apps "symlink-to" true _ ⟨true, to⟩ m2 l2 tc2 (by simp)
+  unfold moveEvents
+  split
+  · trivial
+  · split
+    · exact ⟨hs', k1', ts, k2', trivial⟩
+    · exact ⟨hs', k1, ts, k2, trivial⟩
+
 theorem segOk_rename (f : String) (pol : Policy) (ex : List CStr) (sym : Bool) (a b : CStr)
     (apps : List Approval) (hop1 : opOk f "rename" = true) (hop2 : opOk f "file_size" = true) :
     segOk f apps (renameEfun pol ex sym a b) := by
@@ -266,48 +373,42 @@ theorem segOk_rename (f : String) (pol : Policy) (ex : List CStr) (sym : Bool) (
     | some to =>
       obtain ⟨a2, l2, s2, n2⟩ := approved true _ _ _ h2
       simp only
-      generalize hfrom' : (if from_.length > 1 ∧ from_.getLast? = some '/' then stripTrailSlash from_ else from_) = from'
-      have hc' : ∀ fn, fn = "rename" ∨ fn = "symlink" → covers fn from_ from' = true := by
-        intro fn hfn
-        rw [← hfrom']; split
-        · exact covers_strip fn from_ hfn
-        · exact covers_self fn from_
-      have hs' : safe from' = true := by
-        rw [← hfrom']; split
-        · exact safe_stripTrail from_ s1
-        · exact s1
-      have key : ∀ (apps' : List Approval) (c : Bool), (⟨true, from_⟩ : Approval) ∈ apps' →
-          (⟨true, to⟩ : Approval) ∈ apps' →
-          segOk f apps' (if sym = true then
-              [Ev.fs "symlink" true from', Ev.fs "symlink-to" true (if c = true then to ++ '/' :: baseName from' else to)]
-            else [Ev.fs "rename" true from', Ev.fs "rename-to" true (if c = true then to ++ '/' :: baseName from' else to)]) := by
-        intro apps' c m1 m2
-        obtain ⟨tc1, ts⟩ := target_ok "rename-to" to from' c (Or.inr (Or.inl rfl)) n2 s2 hs'
-        obtain ⟨tc2, _⟩ := target_ok "symlink-to" to from' c (Or.inr (Or.inr rfl)) n2 s2 hs'
-        simp only [List.append_assoc, List.singleton_append] at tc1 tc2 ts
-        have k1 : apps'.any (okBy "rename" true from') = true :=
-          any_okBy _ _ _ _ ⟨true, from_⟩ m1 l1 (hc' _ (Or.inl rfl)) (by simp)
-        have k1' : apps'.any (okBy "symlink" true from') = true :=
-          any_okBy _ _ _ _ ⟨true, from_⟩ m1 l1 (hc' _ (Or.inr rfl)) (by simp)
-        have k2 : apps'.any (okBy "rename-to" true (if c = true then to ++ '/' :: baseName from' else to)) = true :=
-          any_okBy _ _ _ _ ⟨true, to⟩ m2 l2 tc1 (by simp)
-        have k2' : apps'.any (okBy "symlink-to" true (if c = true then to ++ '/' :: baseName from' else to)) = true :=
-          any_okBy _ _ _ _ ⟨true, to⟩ m2 l2 tc2 (by simp)
-        cases sym <;> simp [segOk, k1, k1', k2, k2', hs', ts]
-      by_cases hr : (pol.verdict false to).raises = true
-      · simp [hr, segOk, a1, a2, hop1, hop2]
-      simp only [hr, Bool.false_eq_true, ↓reduceIte]
-      cases h3 : checkValidPath true (pol.verdict false to) to with
-      | none =>
-        simp only [List.append_assoc, List.singleton_append, List.nil_append, segOk, a1, a2, Option.toList_some,
-          hop1, hop2, true_and, List.cons_append]
-        apply key <;> simp
-      | some q =>
-        obtain ⟨a3, l3, s3, _⟩ := approved false _ _ _ h3
-        simp only [List.append_assoc, List.singleton_append, List.nil_append, segOk, a1, a2, a3, Option.toList_some,
-          hop1, hop2, true_and, List.cons_append, s3]
-        refine ⟨any_okBy _ _ _ _ ⟨false, q⟩ (by simp) l3 (covers_self _ q) (by simp), ?_⟩
-        apply key <;> simp
+      by_cases hfit : renameSrcFits from_ = true
+      · simp only [hfit, Bool.not_true, Bool.false_eq_true, ↓reduceIte]
+        by_cases hr : (pol.verdict false to).raises = true
+        · simp [hr, segOk, a1, a2, hop1, hop2]
+        simp only [hr, Bool.false_eq_true, ↓reduceIte]
+        cases h3 : checkValidPath true (pol.verdict false to) to with
+        | none =>
+          simp only [List.append_assoc, List.singleton_append, List.nil_append, segOk, a1, a2, Option.toList_some,
+            hop1, hop2, true_and, List.cons_append]
+          refine segOk_move f sym _ from_ to _ _ ?_ ?_ l1 s1 l2 s2 n2 ?_ <;> simp
+        | some q =>
+          obtain ⟨a3, l3, s3, _⟩ := approved false _ _ _ h3
+          simp only [List.append_assoc, List.singleton_append, List.nil_append, segOk, a1, a2, a3, Option.toList_some,
+            hop1, hop2, true_and, List.cons_append, s3]
+          refine ⟨any_okBy _ _ _ _ ⟨false, q⟩ (by simp) l3 (covers_self _ q) (by simp), ?_⟩
+          refine segOk_move f sym _ from_ to _ _ ?_ ?_ l1 s1 l2 s2 n2 ?_
+          · simp
+          · simp
+          · cases decide (lookup ex q = some Kind.dir) <;> simp
+      · simp [hfit, segOk, a1, a2, hop1]
+
+theorem segOk_cpTail (f : String) (tl : Bool) (from_ to target : CStr) (apps : List Approval)
+    (m2 : (⟨true, to⟩ : Approval) ∈ apps) (s1 : safe from_ = true)
+    (l2 : specLegal to = true) (s2 : safe to = true) (n2 : to ≠ [])
+    (ht : target = to ∨ target = to ++ '/' :: baseName from_) :
+    segOk f apps (cpTail tl target) := by
+  have hT : covers "open" to target = true ∧ safe target = true := by
+    rcases ht with rfl | rfl
+    · exact ⟨covers_self _ _, s2⟩
+    · obtain ⟨tc, ts⟩ := target_ok "open" to from_ true (Or.inl rfl) n2 s2 s1
+      simp only [↓reduceIte, List.append_assoc, List.singleton_append] at tc ts
+      exact ⟨tc, ts⟩
+  unfold cpTail
+  split
+  · trivial
+  · exact ⟨hT.2, any_okBy _ _ _ _ ⟨true, to⟩ m2 l2 hT.1 (by simp), trivial⟩
 
 theorem segOk_cp (f : String) (pol : Policy) (ex : List CStr) (a b : CStr)
     (apps : List Approval) (hop : opOk f "cp" = true) :
@@ -322,16 +423,16 @@ theorem segOk_cp (f : String) (pol : Policy) (ex : List CStr) (a b : CStr)
     | none => simp [segOk, hop]
     | some to =>
       obtain ⟨a2, l2, s2, n2⟩ := approved true _ _ _ h2
-      obtain ⟨tc, ts⟩ := target_ok "open" to from_ (decide (lookup ex to = some Kind.dir)) (Or.inl rfl) n2 s2 s1
       simp only [List.append_assoc, List.singleton_append, List.nil_append, segOk, a1, a2, Option.toList_some,
         hop, true_and, List.cons_append, s1]
       refine ⟨any_okBy _ _ _ _ ⟨false, from_⟩ (by simp) l1 (covers_self _ _) (by simp), ?_⟩
       split
       · trivial
-      · simp only [decide_eq_true_eq, List.append_assoc, List.singleton_append] at tc ts
-        simp only [segOk, List.append_assoc, List.singleton_append]
-        exact ⟨s2, any_okBy _ _ _ _ ⟨true, to⟩ (by simp) l2 (covers_self _ _) (by simp), ts,
-               any_okBy _ _ _ _ ⟨true, to⟩ (by simp) l2 tc (by simp), trivial⟩
+      · simp only [segOk]
+        refine ⟨s2, any_okBy _ _ _ _ ⟨true, to⟩ (by simp) l2 (covers_self _ _) (by simp), ?_⟩
+        refine segOk_cpTail f _ from_ to _ _ ?_ s1 l2 s2 n2 ?_
+        · simp
+        · cases decide (lookup ex to = some Kind.dir) <;> simp
 
 theorem segOk_save (f : String) (pol : Policy) (ex : List CStr) (a : CStr)
     (apps : List Approval) (hop : opOk f "save_object" = true) :
@@ -378,6 +479,53 @@ theorem segOk_askIo (f : String) (pol : Policy) (w io : Bool) (file : CStr) (app
       simp only [↓reduceIte, segOk, s1, true_and, and_true]
       exact any_okBy _ _ _ _ ⟨w, P⟩ (by simp) l1 (covers_self _ P) (by cases w <;> simp)
 
+theorem edIo_edFit (r : Option CStr) (io w : Bool) : edIo (edFit r) io w = [] ∨ edIo (edFit r) io w = edIo r io w := by
+  cases r with
+  | none => right; rfl
+  | some P =>
+    unfold edFit
+    simp only
+    split
+    · left; rfl
+    · right; rfl
+
+theorem segOk_prefix (f : String) : ∀ (e1 e2 : List Ev) (apps : List Approval), segOk f apps (e1 ++ e2) → segOk f apps e1 := by
+  intro e1
+  induction e1 with
+  | nil => intros; trivial
+  | cons e rest ih =>
+    intro e2 apps h
+    cases e with
+    | valid w path who op v => obtain ⟨a, b, c⟩ := h; exact ⟨a, b, ih e2 _ c⟩
+    | fs fn w p => obtain ⟨a, b, c⟩ := h; exact ⟨a, b, ih e2 _ c⟩
+    | note n => exact ih e2 _ h
+    | lp _ _ => exact absurd h (by simp [segOk])
+    | il _ _ => exact absurd h (by simp [segOk])
+    | cvp _ _ _ => exact absurd h (by simp [segOk])
+    | sn _ _ => exact absurd h (by simp [segOk])
+    | inc _ _ _ _ => exact absurd h (by simp [segOk])
+    | call _ _ _ => exact absurd h (by simp [segOk])
+    | mode _ => exact absurd h (by simp [segOk])
+
+/-- the events of a command that got its name from `getfn`: nothing (name refused for its length), or ONE
+    consultation followed by at most the `fopen` of exactly the approved path -/
+theorem segOk_getfnIo (f : String) (pol : Policy) (st : EdSt) (w io : Bool) (arg : CStr) (apps : List Approval)
+    (hop : opOk f "ed_start" = true) :
+    segOk f apps ((edGetfn pol st w arg).1 ++ edIo (edGetfn pol st w arg).2 io w) := by
+  unfold edGetfn
+  split
+  · simp [edIo, segOk]
+  · split
+    · simp [edIo, segOk]
+    · simp only
+      generalize (if (if arg = [] then '/' :: st.fname else arg).head? = some '/' then
+        (if arg = [] then '/' :: st.fname else arg)
+        else (str "/d/" ++ (if arg = [] then '/' :: st.fname else arg)).take (NV.Gen.C15.edMaxFname - 1)) = file
+      have base := segOk_askIo f pol w io file apps hop
+      rcases edIo_edFit (ask pol w file "ed_start").2 io w with h | h
+      · rw [h, List.append_nil]; exact segOk_prefix f _ _ apps base
+      · rw [h]; exact base
+
 theorem segOk_edStep (f : String) (pol : Policy) (ex : List CStr) (st : EdSt) (c : EdCmd) (apps : List Approval)
     (hop : opOk f "ed_start" = true) : segOk f apps (edStep pol ex st c).1 := by
   cases c with
@@ -387,18 +535,16 @@ theorem segOk_edStep (f : String) (pol : Policy) (ex : List CStr) (st : EdSt) (c
     simp only [edStep]
     split
     · simp [segOk]
-    · exact segOk_askIo f pol false true _ apps hop
-  | E arg => exact segOk_askIo f pol false true _ apps hop
+    · exact segOk_getfnIo f pol st false true _ apps hop
+  | E arg => exact segOk_getfnIo f pol st false true _ apps hop
   | f arg =>
-    have := segOk_askIo f pol false false (if (if arg = [] then '/' :: st.fname else arg).head? = some '/'
-      then (if arg = [] then '/' :: st.fname else arg) else str "/d/" ++ (if arg = [] then '/' :: st.fname else arg))
-      apps hop
+    have := segOk_getfnIo f pol st false false arg apps hop
     rw [edIo_false, List.append_nil] at this
     exact this
-  | r arg => exact segOk_askIo f pol false true _ apps hop
-  | w arg => exact segOk_askIo f pol true _ _ apps hop
-  | W arg => exact segOk_askIo f pol true _ _ apps hop
-  | x => exact segOk_askIo f pol true true _ apps hop
+  | r arg => exact segOk_getfnIo f pol st false true _ apps hop
+  | w arg => exact segOk_getfnIo f pol st true _ _ apps hop
+  | W arg => exact segOk_getfnIo f pol st true _ _ apps hop
+  | x => exact segOk_getfnIo f pol st true true _ apps hop
   | q => simp [edStep, segOk]
   | Q => simp [edStep, segOk]
 
@@ -406,7 +552,7 @@ theorem segOk_edStep (f : String) (pol : Policy) (ex : List CStr) (st : EdSt) (c
 def efunNames : List String :=
   ["read_file", "write_file", "rm", "mkdir", "rmdir", "file_size", "file_length", "tail", "read_bytes",
    "read_buffer", "write_bytes", "write_buffer", "restore_object", "dumpallobj", "dump_prog", "get_dir", "stat",
-   "rename", "link", "cp", "save_object", "ed"]
+   "rename", "link", "cp", "save_object", "ed", "get_dir1", "stat1"]
 
 example : efunNames.all (fun f => (opNames.map (·.1)).contains f) = true ∧
     (opNames.map (·.1)).all (fun f => efunNames.contains f) = true := by decide
@@ -414,7 +560,7 @@ example : efunNames.all (fun f => (opNames.map (·.1)).contains f) = true ∧
 theorem efun_segOk (pol : Policy) (ex : List CStr) (efun : String) (a b : CStr) (h : efun ∈ efunNames) :
     segOk efun [] (efunEvents pol ex efun a b) := by
   simp only [efunNames, List.mem_cons, List.not_mem_nil, or_false] at h
-  rcases h with h | h | h | h | h | h | h | h | h | h | h | h | h | h | h | h | h | h | h | h | h | h <;> subst h <;>
+  rcases h with h | h | h | h | h | h | h | h | h | h | h | h | h | h | h | h | h | h | h | h | h | h | h | h <;> subst h <;>
     simp only [efunEvents]
   · exact segOk_single _ _ _ _ _ _ _ _ (by decide) (by decide)
   · exact segOk_single _ _ _ _ _ _ _ _ (by decide) (by decide)
@@ -431,13 +577,15 @@ theorem efun_segOk (pol : Policy) (ex : List CStr) (efun : String) (a b : CStr) 
   · exact segOk_single _ _ _ _ _ _ _ _ (by decide) (by decide)
   · exact segOk_single _ _ _ _ _ _ _ _ (by decide) (by decide)
   · exact segOk_single _ _ _ _ _ _ _ _ (by decide) (by decide)
-  · exact segOk_getDir _ _ _ _ _ (by decide)
-  · exact segOk_stat _ _ _ _ _ (by decide)
+  · exact segOk_getDir _ _ _ _ _ _ (by decide)
+  · exact segOk_stat _ _ _ _ _ _ (by decide)
   · exact segOk_rename _ _ _ _ _ _ _ (by decide) (by decide)
   · exact segOk_rename _ _ _ _ _ _ _ (by decide) (by decide)
   · exact segOk_cp _ _ _ _ _ _ (by decide)
   · exact segOk_save _ _ _ _ _ (by decide)
   · exact segOk_edStep _ _ _ _ _ _ (by decide)
+  · exact segOk_getDir _ _ _ _ _ _ (by decide)
+  · exact segOk_stat _ _ _ _ _ _ (by decide)
 
 /-- **model_satisfies_spec**: for every file efun, every argument string(s), every master policy and every
     file-system content, the oracle finds nothing to object to in the model's trace. -/
@@ -446,7 +594,7 @@ theorem model_satisfies_spec (pol : Policy) (ex : List CStr) (efun : String) (ar
     judgeEv (.call efun whoObj args :: efunEvents pol ex efun a b) = [] := by
   apply judge_of_segOk _ _ _ _ (efun_segOk pol ex efun a b h)
   simp only [efunNames, List.mem_cons, List.not_mem_nil, or_false] at h
-  rcases h with h | h | h | h | h | h | h | h | h | h | h | h | h | h | h | h | h | h | h | h | h | h <;> subst h <;> decide
+  rcases h with h | h | h | h | h | h | h | h | h | h | h | h | h | h | h | h | h | h | h | h | h | h | h | h <;> subst h <;> decide
 
 /-! ### a master without valid_read / valid_write -/
 
@@ -474,6 +622,7 @@ theorem fold_absent (f : String) : ∀ (evs : List Ev) (apps : List Approval) (s
       simp only [Ev.isValid, Bool.not_false, List.filter_cons_of_pos, List.foldl_cons]
       exact ih apps s ha hs
     | lp _ _ => exact absurd hs (by simp [segOk])
+    | il _ _ => exact absurd hs (by simp [segOk])
     | cvp _ _ _ => exact absurd hs (by simp [segOk])
     | sn _ _ => exact absurd hs (by simp [segOk])
     | inc _ _ _ _ => exact absurd hs (by simp [segOk])
@@ -619,6 +768,16 @@ theorem includeOpens_go_safe (ex : List CStr) : ∀ ts : List CStr, (∀ t ∈ t
 theorem load_model_satisfies_spec (ex : List CStr) (name : CStr) :
     judgeEv (.call "load" "-" [name] :: (loadEvents ex name).1) = [] :=
   judge_compile "load" _ _ (by decide) (loadEvents_safe ex name)
+
+/-- saved binaries (observation level): the model's trace has no libc line at all — the statement carried by the
+    run is the oracle's: a libc call on an unsafe path printed by the harness in this mode is `fs-absolute` /
+    `fs-dotdot` -/
+theorem binary_model_satisfies_spec (name : CStr) :
+    judgeEv (.call "binary" "-" [name] :: binaryEvents name) = [] := by
+  simp [judgeEv, binaryEvents, judgeStep]
+
+example : judgeEv [.call "binary" "-" [str "/d/b"], .fs "fopen" true (str "../bin/d/b.b")] ≠ [] := by decide
+example : judgeEv [.call "binary" "-" [str "/d/b"], .fs "stat" false (str "/bin")] ≠ [] := by decide
 
 theorem include_model_satisfies_spec (base name : CStr) :
     judgeEv (.call "include" "-" [base, name] :: includeEvents base name) = [] := by
